@@ -752,15 +752,25 @@ def r17_panicking_index_methods(ctx, reach):
         o = None
         for c in body.calls():
             nm = c.norm or ""
-            if not nm.endswith(STR_INDEX_METHODS) or len(c.args) < 2:
+            str_slice = nm.endswith(("::index", "::index_mut")) and ("<std::string::String as" in (c.callee or "") or "<str as" in (c.callee or "")) and len(c.args) > 1
+            if not (nm.endswith(STR_INDEX_METHODS) or str_slice) or len(c.args) < 2:
                 continue
             o = o or ctx.origins(body)
-            n += 1
             s_t = o.of_operand(c.args[0])
             ix = o.of_operand(c.args[1])
+            if str_slice:
+                # `&text[a..b]`: each bound is a position in its own right
+                if not (isinstance(ix, tuple) and ix and ix[0] == "agg" and "Range" in str(ix[1])):
+                    continue
+                bounds = [b_ for b_ in ix[3] if const_value(b_) != 0]
+                if not bounds:
+                    continue
+                ix = bounds[0] if len(bounds) == 1 else ("agg", "bounds", None, tuple(bounds))
+            n += 1
             skey = strip_bb(s_t)
             derived = False
-            for s_ in subterms(ix):
+            clipped = [s_ for s_ in subterms(ix) if is_call_term(s_, "::min", "::max", "::clamp", "::saturating_sub", "::saturating_add", "::wrapping_sub") and any(const_value(a_) not in (None, 0) for a_ in s_[3])]
+            for s_ in ([] if clipped else subterms(ix)):
                 if isinstance(s_, tuple) and s_ and s_[0] == "call" and s_[1].split("::")[-1] in ("find", "rfind", "len", "char_indices", "floor_char_boundary", "ceil_char_boundary", "position", "rposition", "match_indices") \
                         and any(strip_bb(a_) == skey or (var_name(a_) and var_name(a_) == var_name(s_t)) for a_ in s_[3]):
                     derived = True
